@@ -131,6 +131,17 @@ func runC11(c *Ctx) {
 	p.Pkts = pk
 	if endPkt != nil {
 		p.Pkts = append(append([]CPkt{}, pk...), *endPkt)
+		if c.T.Bool(1, 3) {
+			// the client had more packets in flight behind the one that ends the tunnel
+			for k := 1 + c.T.Choose(3); k > 0; k-- {
+				if c.T.Bool(1, 2) {
+					p.Pkts = append(p.Pkts, PKeepalive())
+				} else {
+					p.Pkts = append(p.Pkts, PData(c.T.Bytes(1+c.T.Choose(200), 0x63)))
+				}
+			}
+			c.S.Count("probe.packets_behind_the_last")
+		}
 	}
 	if tr == "legacy" && c.T.Bool(1, 4) {
 		// the client retries its RDG_IN_DATA request (same connection id) while the tunnel is
@@ -141,6 +152,17 @@ func runC11(c *Ctx) {
 	inflight := c.T.Bool(1, 2) && strings.HasPrefix(point, "data")
 	tw.Tuns = StartTunnels(c, tw.Plans)
 	t := tw.Tuns[0]
+	if strings.HasPrefix(point, "data") {
+		// the remote desktop host may have hung up (or reset) before the client side ends
+		for _, h := range t.Hosts {
+			switch c.T.Weighted(4, 1, 1) {
+			case 1:
+				h.CloseAfterScript = true
+			case 2:
+				h.ResetAfter = c.T.Choose(len(h.Script) + 1)
+			}
+		}
+	}
 	cl := t.Client
 	stalled := false
 	clientStopped := false // the client stopped reading after the set-up was complete
